@@ -240,6 +240,9 @@ func verifyFunction(w *World, fn *ssa.Function, spec *FuncSpec) (vc *VC) {
 				if !changed || declared[g.Name] || cur == compInit(g.Name) {
 					continue
 				}
+				if pre, priv := vc.db.Private[g.Name]; priv && !strings.HasPrefix(spec.Pkg, pre) {
+					continue // private ghost state of another package: no contract here can mention it
+				}
 				if e0, ok := fr.entry.m[g.Name]; ok && e0 == cur {
 					continue
 				}
@@ -275,6 +278,9 @@ func verifyFunction(w *World, fn *ssa.Function, spec *FuncSpec) (vc *VC) {
 		vc.relational(fr, spec)
 	}
 	vc.checkIfaceFrame(fn, spec)
+	if spec.EffectsPrivate {
+		vc.checkEffectsPrivate(fn)
+	}
 	// loop bodies reachable (invariants not contradictory)
 	for h := range fr.loopOrd {
 		if r, ok := fr.reachIn[h]; ok && r != "false" {
@@ -311,6 +317,9 @@ func (vc *VC) tableFacts() {
 		}
 		if vc.top.Pkg == nil || vc.top.Pkg.Pkg.Path() != p.PkgPath {
 			continue
+		}
+		if !vc.mentionsGlobal(g) {
+			continue // keep the hundreds of table facts out of scripts that never read the table
 		}
 		if msg := vc.globalStable(g); msg != "" {
 			vc.unsupportedf("global %s declared table but %s", key, msg)
@@ -812,6 +821,125 @@ func (vc *VC) checkIfaceFrame(fn *ssa.Function, spec *FuncSpec) {
 				}
 				if isGhost[c] && !allowed[c] {
 					vc.unsupportedf("frame: %s declares `modifies %s`, which the interface contract %s (through which it is called) does not list", vc.name, c, k)
+				}
+			}
+		}
+	}
+}
+
+// mentionsGlobal: does the function under verification (its body, its closures, the static callees it
+// reaches inside its own package, or the text of its contract) refer to the package-level variable g?
+func (vc *VC) mentionsGlobal(g *ssa.Global) bool {
+	if vc.spec != nil {
+		var texts []string
+		for _, cs := range [][]*Clause{vc.spec.Requires, vc.spec.Ensures, vc.spec.EnsuresPanic, vc.spec.Ensures2, vc.spec.Lemmas, vc.spec.AssumePre, vc.spec.Assumes} {
+			for _, c := range cs {
+				texts = append(texts, c.Text)
+			}
+		}
+		for _, ls := range vc.spec.Loops {
+			for _, c := range ls.Invariants {
+				texts = append(texts, c.Text)
+			}
+		}
+		for _, a := range vc.spec.Ats {
+			texts = append(texts, a.Clause.Text)
+		}
+		for _, t := range texts {
+			if mentionsIdent(t, g.Name()) {
+				return true
+			}
+		}
+	}
+	seen := map[*ssa.Function]bool{}
+	var visit func(f *ssa.Function, depth int) bool
+	visit = func(f *ssa.Function, depth int) bool {
+		if f == nil || seen[f] || depth > 4 {
+			return false
+		}
+		seen[f] = true
+		for _, b := range f.Blocks {
+			for _, ins := range b.Instrs {
+				for _, op := range ins.Operands(nil) {
+					if *op == ssa.Value(g) {
+						return true
+					}
+					if mc, ok := (*op).(*ssa.MakeClosure); ok {
+						if visit(mc.Fn.(*ssa.Function), depth+1) {
+							return true
+						}
+					}
+				}
+				if c, ok := ins.(ssa.CallInstruction); ok {
+					if callee := c.Common().StaticCallee(); callee != nil && callee.Pkg == f.Pkg {
+						if visit(callee, depth+1) {
+							return true
+						}
+					}
+				}
+			}
+		}
+		for _, af := range f.AnonFuncs {
+			if visit(af, depth+1) {
+				return true
+			}
+		}
+		return false
+	}
+	return visit(vc.top, 0)
+}
+
+// checkEffectsPrivate: every memory write of a function declared `effects_private` (plain stores and
+// sync/atomic read-modify-writes) must go to a location reached from an unexported package-level
+// variable of the function's own package, or to a local variable. Together with "no contract outside
+// the package can name those variables" this is what lets other packages treat the call as
+// effect-free.
+func (vc *VC) checkEffectsPrivate(fn *ssa.Function) {
+	var root func(v ssa.Value, depth int) ssa.Value
+	root = func(v ssa.Value, depth int) ssa.Value {
+		if depth > 12 {
+			return v
+		}
+		switch x := v.(type) {
+		case *ssa.IndexAddr:
+			return root(x.X, depth+1)
+		case *ssa.FieldAddr:
+			return root(x.X, depth+1)
+		case *ssa.Slice:
+			return root(x.X, depth+1)
+		case *ssa.UnOp:
+			if x.Op == token.MUL {
+				return root(x.X, depth+1)
+			}
+		}
+		return v
+	}
+	check := func(addr ssa.Value, pos token.Pos) {
+		switch r := root(addr, 0).(type) {
+		case *ssa.Global:
+			if r.Pkg == fn.Pkg && !ast.IsExported(r.Name()) {
+				return
+			}
+		case *ssa.Alloc:
+			return
+		}
+		vc.unsupportedf("effects_private: write at %s does not go to a location reached from an unexported package-level variable", vc.posOf(pos))
+	}
+	for _, b := range fn.Blocks {
+		for _, ins := range b.Instrs {
+			switch x := ins.(type) {
+			case *ssa.Store:
+				check(x.Addr, x.Pos())
+			case ssa.CallInstruction:
+				cc := x.Common()
+				if callee := cc.StaticCallee(); callee != nil && callee.Pkg != nil && callee.Pkg.Pkg.Path() == "sync/atomic" && len(cc.Args) > 0 {
+					if strings.HasPrefix(callee.Name(), "Add") || strings.HasPrefix(callee.Name(), "Store") || strings.HasPrefix(callee.Name(), "CompareAndSwap") || strings.HasPrefix(callee.Name(), "Swap") {
+						check(cc.Args[0], x.Pos())
+					}
+				} else if callee != nil && callee.Pkg == fn.Pkg {
+					if cs := vc.lookupSpec(qualName(callee)); cs != nil && len(cs.Modifies) > 0 && !cs.EffectsPrivate {
+						vc.unsupportedf("effects_private: calls %s, which declares effects of its own", qualName(callee))
+					}
 				}
 			}
 		}
